@@ -6,13 +6,13 @@ import build
 def run(ctx):
     b = build.ensure_explorer("dec_larc", "asan")
     ctx.run_space(b, "stored", ["maxn=%d" % (2100 if ctx.thorough else 2100)])
-    for s in ("lz5-single", "lzs-single", "lz5-flags", "lz5-seq", "lzs-seq", "lz5-wrap", "lzs-wrap"):
+    for s in ("lz5-single", "lzs-single", "lz5-flags", "lz5-seq", "lzs-seq", "lz5-wrap", "lzs-wrap", "lz5-runs"):
         ctx.run_space(b, s)
     ctx.assumptions += ["ref/ref_lz.c: absolute-position LZ77 over the documented LArc initial ring contents (formula), bound to the corpus -lz5-/-lzs- members by ./check selftest"]
     return ctx.finish(
         rule="streams are produced by the reference serialiser from command lists: stored (every length 0..2100 x 5 declared lengths x 3 names); "
              "every single copy (all ring positions x all 16 lengths) from the initial state, for -lzs- after 0..7 literals (all bit alignments); "
              "all 256 flag bytes; all command sequences to depth 4 (thorough 5) over a 14-letter alphabet with positions relative to the write position; "
-             "seam/wrap prefixes x boundary copies.  non-trivial = distinct stream containing at least one copy (stored: non-empty output); "
+             "seam/wrap prefixes x boundary copies; 'lz5-runs': runs of eight commands (6 flag patterns) starting at every write position from 8 before to 23 after the end of the ring, followed by copies from ring positions 0, 1, 7, 4089, 4094, 4095.   non-trivial = distinct stream containing at least one copy (stored: non-empty output); "
              "states = distinct hashes of the decoder's private state area + wrapper fields + output after each read",
         replay_fn=lambda rep: runner.replay_explorer(rep, quiet=True))
